@@ -208,6 +208,9 @@ def cls_tag(a, b):
     return k(a) + "|" + k(b)
 
 
+ROUTES = ["dict", "dict", "json", "json-none", "package"]
+
+
 class _SubRpm(InstalledRpm):
     """a subclass a consumer might write: ordering is about name/epoch/version/release, never about the class"""
 
@@ -217,8 +220,23 @@ def _classes():
     return {"InstalledRpm": InstalledRpm, "YumListRpm": YumListRpm, "subclass": _SubRpm}
 
 
-def mk_rpm(name, evr, cls="InstalledRpm"):
-    return _classes()[cls]({"name": name, "epoch": str(evr[0]), "version": evr[1], "release": evr[2], "arch": "x86_64"})
+def mk_rpm(name, evr, cls="InstalledRpm", route="dict"):
+    """one package object through one of the documented ways of making it; every way denotes the same package"""
+    c = _classes()[cls]
+    e, v, r = evr
+    if route == "json" or route == "json-none":
+        # JSON line; an epoch of 0 is what rpm prints as "(none)" (route json-none) or leaves out
+        d = {"name": name, "version": v, "release": r, "arch": "x86_64"}
+        if e != 0:
+            d["epoch"] = str(e)
+        elif route == "json-none":
+            d["epoch"] = "(none)"
+        return c.from_json(json.dumps(d))
+    if route == "package" and not any(ch in v + r for ch in "-:") and v and r:
+        o = c.from_package("%s-%s%s-%s.x86_64" % (name, "%d:" % e if e else "", v, r))
+        if (o.version, o.release, o.name) == (v, r, name):       # the short string form parsed back to the same fields
+            return o
+    return c({"name": name, "epoch": str(e), "version": v, "release": r, "arch": "x86_64"})
 
 
 def parse_list(which, evrs):
@@ -349,8 +367,10 @@ def run(chk):
         # the two sides are objects of the base class, of the yum-list subclass or of a consumer's subclass, mixed
         c1 = rng.choice(["InstalledRpm", "InstalledRpm", "YumListRpm", "subclass"])
         c2 = rng.choice(["InstalledRpm", "InstalledRpm", "YumListRpm", "subclass"])
-        a, b = mk_rpm(n1, x, c1), mk_rpm(n2, y, c2)
+        r1, r2 = rng.choice(ROUTES), rng.choice(ROUTES)
+        a, b = mk_rpm(n1, x, c1, r1), mk_rpm(n2, y, c2, r2)
         chk.count("evr:classes:" + ("same" if c1 == c2 else "mixed"))
+        chk.count("evr:made-by:" + r1)
         c = rpm_version_compare(a, b)
         ops = ops_impl(a, b)
         evr_cases.append((n1, x, n2, y))
@@ -364,12 +384,13 @@ def run(chk):
             want = ",".join("1" if v else "0" for v in (c == 0, c != 0, c < 0, c <= 0, c > 0, c >= 0))
             if ops != want:
                 chk.failure("operators disagree with rpm_version_compare=%d: %s (eq,ne,lt,le,gt,ge) for %r vs %r" % (c, ops, x, y),
-                            {"op": "ops", "n1": n1, "x": x, "n2": n2, "y": y, "c1": c1, "c2": c2})
+                            {"op": "ops", "n1": n1, "x": x, "n2": n2, "y": y, "c1": c1, "c2": c2, "r1": r1, "r2": r2})
             ref = sgn(x[0] - y[0]) or c_rpmvercmp(x[1], y[1]) or c_rpmvercmp(x[2], y[2])
             if c != ref:
-                chk.failure("rpm_version_compare(%r,%r)=%d, RPM gives %d" % (x, y, c, ref), {"op": "evr", "x": x, "y": y, "want": ref})
+                chk.failure("rpm_version_compare(%r,%r)=%d, RPM gives %d (objects made by %s / %s)" % (x, y, c, ref, r1, r2),
+                            {"op": "evr", "x": x, "y": y, "want": ref, "n1": n1, "n2": n2, "c1": c1, "c2": c2, "r1": r1, "r2": r2})
         elif ops != "E,E,E,E,E,E":
-            chk.failure("packages with different names were compared: %s" % ops, {"op": "ops", "n1": n1, "x": x, "n2": n2, "y": y, "c1": c1, "c2": c2})
+            chk.failure("packages with different names were compared: %s" % ops, {"op": "ops", "n1": n1, "x": x, "n2": n2, "y": y, "c1": c1, "c2": c2, "r1": r1, "r2": r2})
     out = run_driver("C13", lines)
     model = ["%s|%s" % (out[2 * i], out[2 * i + 1]) for i in range(len(evr_cases))]
     chk.compare("evr+operators", evr_cases, impl, model)
@@ -452,7 +473,8 @@ def replay(data):
         bad = (x <= 0 and y <= 0 and z > 0) or (x >= 0 and y >= 0 and z < 0) or (x == 0 and y == 0 and z != 0)
     elif op in ("ops", "evr"):
         x, y = tuple(c["x"]), tuple(c["y"])
-        a, b = mk_rpm(c.get("n1", "p"), x, c.get("c1", "InstalledRpm")), mk_rpm(c.get("n2", "p"), y, c.get("c2", "InstalledRpm"))
+        a = mk_rpm(c.get("n1", "p"), x, c.get("c1", "InstalledRpm"), c.get("r1", "dict"))
+        b = mk_rpm(c.get("n2", "p"), y, c.get("c2", "InstalledRpm"), c.get("r2", "dict"))
         print("classes: %s vs %s" % (type(a).__name__, type(b).__name__))
         cmpv = rpm_version_compare(a, b)
         ref = sgn(x[0] - y[0]) or c_rpmvercmp(x[1], y[1]) or c_rpmvercmp(x[2], y[2])
